@@ -85,6 +85,26 @@ def only_terms(ctx, rule, fa, node, allowed, what, assume=(), key=None):
     return ctx.ob(rule, not extra, fa.site(node), what, detail="" if not extra else f"additional condition(s) [{fmt_missing(sorted(extra))}]", func=fa.fi.qualname, key=key)
 
 
+def same_test(expr, text):
+    """does the test expression `expr` mean `text` (orientation / polarity normalised)?"""
+    return terms.whole(expr) == terms.whole(ast.parse(text, mode="eval").body)
+
+
+def top_level_texts(fa, skip_plain_locals=True):
+    """normalised texts of the statements at the top level of the function body (each runs unconditionally), without docstring,
+    logging calls and assignments of constants to plain local names (unrelated bookkeeping)"""
+    out = []
+    for x in fa.node.body:
+        if isinstance(x, ast.Expr) and isinstance(x.value, ast.Constant):
+            continue
+        if isinstance(x, ast.Expr) and isinstance(x.value, ast.Call) and dotted(x.value.func) and dotted(x.value.func).split(".")[0] in ("log", "logger", "logging"):
+            continue
+        if skip_plain_locals and isinstance(x, ast.Assign) and all(isinstance(t, ast.Name) for t in x.targets) and isinstance(x.value, ast.Constant):
+            continue
+        out.append(norm_text(x))
+    return out
+
+
 def ref_sites(prog, name, loads_only=True):
     """[(module, node, enclosing FunctionInfo|None)] for every syntactic reference to identifier `name`"""
     out = []
